@@ -25,7 +25,7 @@ ASSUMPTIONS = {
     "A-TIME": "dates are integers; DateOffset arithmetic is additive on them",
     "A-DET": "user callables and third-party numerics are deterministic functions of their arguments",
     "A-DEEPCOPY": "copy.deepcopy returns a fresh, isomorphic, disjoint object graph",
-    "A-PANDAS": "the pandas operators used by a function behave like their reference implementation in /verif/axioms (audited at run time)",
+    "A-PANDAS": "the pandas operators used by a function behave like the operator definitions of the label/Series algebra in pyvc/ext_frames.py (audited exhaustively on a small domain by the bounded script c14_select at run time)",
     "A-CAL": "calendar accessors of pandas.Timestamp are those of the proleptic Gregorian / ISO calendars (audited exhaustively)",
     "A-EXT": "third-party numerics (ffn, sklearn, numpy.linalg) satisfy their assumed contracts",
 }
